@@ -238,10 +238,10 @@ def run(ctx):
     for defs, cfg in CORPUS:
         p = c06.mk_prog(defs, cfg)
         for ctl, hit in sc.enumerate_schedules_pairs(lambda d: one_run(ctx, p, decisions=d, items=items, tag="corpus-exhaustive"),
-                                                     ctx.n(40, 600)):
+                                                     ctx.n(24, 600)):
             reproduced = reproduced or hit
         base.flush(ctx, items)
-    for i in range(ctx.n(25, 600)):
+    for i in range(ctx.n(14, 600)):
         p = sc.gen_program(rng, p_dup=0.8, p_limits=0.1, p_ctx=0.5, p_fail=0.05, allow_optout=False, allow_badexec=False)
         for k in range(2):
             _, hit = one_run(ctx, p, rng=random.Random(rng.random()), items=items)
@@ -250,7 +250,7 @@ def run(ctx):
             base.flush(ctx, items)
     # sequenced duplicates under several contexts: the shared leaf's value depends on the context through its RESULT expression
     # (same eval hash everywhere) or through its default arguments, or not at all; later calls find earlier twins finished
-    for i in range(ctx.n(24, 500)):
+    for i in range(ctx.n(14, 500)):
         p = sc.gen_chain(rng)
         for k in range(2):
             _, hit = one_run(ctx, p, rng=random.Random(rng.random()), items=items, tag="chain", p_complete=rng.choice([0.3, 0.7, 0.95]))
